@@ -83,9 +83,10 @@ class P(Prop):
 
     def multipart(self, rnd):
         bd = rnd.choice(["B", "----WebKit123", "--x-y", "a b"])
-        ps = b"".join(("--%s\r\nContent-Disposition: form-data; name=\"%s\"%s\r\n%s\r\n" % (bd, rnd.choice(["a", "f", ""]), rnd.choice(["", "; filename=\"x.txt\""]), rnd.choice(["", "Content-Type: text/plain\r\n"]))).encode()
-                      + rnd.choice([b"v", b"", b"line1\r\nline2", b"\xff\x00", b"--", b"-" * 40]) + b"\r\n" for _ in range(rnd.randint(0, 4)))
-        return bd, ps + ("--%s--\r\n" % bd).encode()
+        eol = rnd.choice(["\r\n", "\r\n", "\n"])          # browsers send CRLF; the parser also accepts bare LF
+        ps = b"".join(("--%s%sContent-Disposition: form-data; name=\"%s\"%s%s%s%s" % (bd, eol, rnd.choice(["a", "f", ""]), rnd.choice(["", "; filename=\"x.txt\""]), eol, rnd.choice(["", "Content-Type: text/plain" + eol]), eol)).encode()
+                      + rnd.choice([b"v", b"", b"", b"\n", b"\r", b"x", b"line1\r\nline2", b"\xff\x00", b"--", b"-" * 40]) + eol.encode() for _ in range(rnd.randint(0, 4)))
+        return bd, ps + ("--%s--%s" % (bd, eol)).encode()
 
     def small(self, rnd, kind):
         if kind == "hdr": return rnd.choice(["Host: example.com", "X-A:b", "A: b: c", "NoColon", ": v", "Name : value \r\n", "É: é"]).encode()
